@@ -2,7 +2,7 @@
 import json
 
 import codecgen as cg
-from common import (Rng, assumptions, coq_bytes, coq_eval, coq_make, harness_build, hygiene, load_known, log,
+from common import (coqchk, Rng, assumptions, coq_bytes, coq_eval, coq_make, harness_build, hygiene, load_known, log,
                     regen, run_harness, seed, write_evidence, write_replay, TRUSTED_BASE)
 
 PROP = "C10"
@@ -192,6 +192,10 @@ def run(tier, replay=None):
         op = [t for t in THEOREMS if closed.get(t) != "closed"]
         if op:
             broken.append("not closed under the global context: %s" % op)
+    if thorough and ok_props:
+        okc, summ = coqchk(PROP)
+        if not okc:
+            broken.append("independent checker: " + summ)
     for prof in ("debug", "release"):
         okb, bout = harness_build(prof)
         if not okb:
